@@ -74,6 +74,13 @@ Oracle (S4, implementation only; nothing from the model) - only what C03's state
     a body with more or fewer values than its signature has complete types (the bytes could not carry that body)
   * a message longer than the limit must not be constructed: 2^27 always; the class's lower `_maxMsgLen` only while a probe
     (the suite's own test_too_long) shows that the code honours a subclass value.  Never: "exactly the limit must construct"
+  * (histories) the same clauses, nothing more, on every LATER use inside one scenario: a message constructed after others
+    without a descriptor list carries exactly its own descriptors (UNIX_FDS = their number, indices from 0, no UNIX_FDS when it
+    has none); an object marshalled again is well-formed again with every field once and parses back to its arguments, and
+    a new serial asked for (`newSerial=True`) that differs from the old one was not given before; bytes parsed again - after
+    other parses, after the receiver changed the earlier result, with another descriptor list - give the message again,
+    with THAT list's descriptors; an object parseMessage returned is not changed by later parses (inspected only while
+    nobody has mutated anything).  "The same bytes / the same outcome as the first time" is model correspondence (S3) only
   NOT judged here (model correspondence only): the bus's forwarding call `_marshal(False, rawBody=...)` (C14's statement),
   UNIX_FDS for a pre-filled descriptor list, messages outside the statement (parse-wrongtype)
 """
@@ -182,6 +189,7 @@ def violation(ctx, key, what, inp, observed=None, expected=None):
 
 
 _REPRO = {}
+VERIFY = {'on': True, 'budget': 30}          # at most 30 fresh-interpreter replays per run (only spent when there are violations)
 
 
 def reproduced_keys(ctx, inp):
@@ -190,10 +198,13 @@ def reproduced_keys(ctx, inp):
     import os
     import subprocess
     import sys
-    if os.environ.get('C03_NO_VERIFY'):
+    if os.environ.get('C03_NO_VERIFY') or not VERIFY['on']:
         return None
     if id(inp) in _REPRO:
         return _REPRO[id(inp)][1]
+    if VERIFY['budget'] <= 0:
+        return None
+    VERIFY['budget'] -= 1
     code = ('import sys, json\n'
             'sys.path.insert(0, %r)\n'
             'from vlib import ctx as C\n'
@@ -250,6 +261,7 @@ def flush_violations(ctx):
             ctx.violation(key, rec['what'], inp=rec['inp'], observed=rec['observed'], expected=rec['expected'])
     PENDING.clear()
     _REPRO.clear()
+    VERIFY.update(on=True, budget=30)
 
 
 # ---------------------------------------------------------------------------------- canonical forms
@@ -2584,6 +2596,7 @@ def replay(ctx, data):
     from txdbus import marshal, message
     saved = get_next(message)
     PENDING.clear()
+    VERIFY['on'] = False                  # the input that is replayed IS the exemplar
     try:
         replay_case(ctx, marshal, message, data['input'] if 'input' in data else data)
         flush_general_parse(ctx, message)
@@ -2630,7 +2643,7 @@ def run(ctx):
         run_wrongtype(ctx, marshal, message, ctx.scale(quick=1200, thorough=40000))
         for _ in range(ctx.scale(quick=6, thorough=40)):
             run_serial_sequence(ctx, marshal, message, 150)
-        run_histories(ctx, marshal, message, gen_histories(ctx, marshal, 4, ctx.scale(quick=60, thorough=1500)))
+        run_histories(ctx, marshal, message, gen_histories(ctx, marshal, 4, ctx.scale(quick=60, thorough=600)))
         if ctx.tier == 'thorough' and not ctx.widen:
             run_real_limit(ctx, marshal, message)
         flush_general_parse(ctx, message)
